@@ -48,14 +48,61 @@ Theorem C18_decode_is_rfc :
                    end.
 Proof. exact dg_decode_spec. Qed.
 
-(* the source's `impl Buf for EncodedDatagram` defines remaining/chunk/advance and nothing else (regenerated fact) *)
-Theorem C18_buf_impl_shape : Gen.GenDatagram.buf_methods = [1; 2; 3].
+(* the source's `impl Buf for EncodedDatagram` defines remaining/chunk/advance and nothing else (regenerated fact; stated
+   as a set: the order of the methods in the impl block is irrelevant) *)
+Theorem C18_buf_impl_shape :
+  (forall m, In m Gen.GenDatagram.buf_methods <-> In m [1; 2; 3]) /\ length Gen.GenDatagram.buf_methods = 3%nat.
 Proof. exact buf_impl_is_the_three_required_methods. Qed.
+
+(* Datagram::new: the stream id must be divisible by four and NOTHING else is demanded (any payload is accepted) *)
+Theorem C18_new_asserts_only_divisibility :
+  forall sid p, (sid mod 4 = 0 -> dg_new sid p = Ok (sid, p)) /\ (sid mod 4 <> 0 -> dg_new sid p = Panic 10).
+Proof. exact dg_new_total. Qed.
+
+(* regenerated facts about the source: an EncodedDatagram is built in exactly one place (the literal in `encode`);
+   DatagramSender::send_datagram is handler.send_datagram(Datagram::new(self.stream_id, data).encode());
+   DatagramReader::read_datagram maps a decode error through handle_connection_error_on_stream *)
+Theorem C18_call_sites :
+  Gen.GenDatagram.encoded_datagram_constructors = 1 /\ Gen.GenDatagram.constructor_in_encode = true /\
+  Gen.GenDatagram.tx_path_new_encode = true /\ Gen.GenDatagram.rx_error_is_connection_error = true.
+Proof. exact call_site_facts. Qed.
+
+(* the real call sites.  T4: what send_datagram hands to a transport that drains the buffer chunk by chunk is exactly
+   varint(S/4) ++ P; a stream id not divisible by four panics in Datagram::new *)
+Theorem C18_tx_bytes :
+  forall sid payload, sid < 2 ^ 62 -> sid mod 4 = 0 -> nonempty_chunks payload ->
+    dg_tx sid payload = Ok (rfc_dg_bytes sid (concat payload)).
+Proof. exact dg_tx_bytes. Qed.
+Theorem C18_tx_panics_on_non_request_stream :
+  forall sid payload, sid mod 4 <> 0 -> dg_tx sid payload = Panic 10.
+Proof. exact dg_tx_panics. Qed.
+
+(* T5: read_datagram on an arriving QUIC datagram: what the RFC decoder accepts is delivered with the same (S, P);
+   everything else is a CONNECTION error: the caller gets H3_DATAGRAM_ERROR and the connection is closed with it *)
+Theorem C18_rx_is_rfc :
+  forall bs, wf_bytes bs ->
+    dg_rx bs = match rfc_dg_decode bs with
+               | Some (s, p) => RxDatagram s p
+               | None => RxConnError H3_DATAGRAM_ERROR_rfc H3_DATAGRAM_ERROR_rfc
+               end.
+Proof. exact dg_rx_spec. Qed.
+
+(* T6: sender to reader *)
+Theorem C18_tx_rx_roundtrip :
+  forall sid payload, sid < 2 ^ 62 -> sid mod 4 = 0 -> nonempty_chunks payload -> wf_bytes (concat payload) ->
+    exists wire, dg_tx sid payload = Ok wire /\ dg_rx wire = RxDatagram sid (concat payload).
+Proof. exact dg_tx_rx_roundtrip. Qed.
 
 Example C18_encode_inhabited :
   exists st, dg_encode 8 [[120; 121]] = Ok st /\ dg_view st = [2; 120; 121].
 Proof. eexists. split; vm_compute; reflexivity. Qed.
 Example C18_decode_reject_inhabited : dg_decode [255;255;255;255;255;255;255;255;1] = Err 51.
+Proof. vm_compute. reflexivity. Qed.
+Example C18_tx_inhabited : dg_tx 256 [[170; 187]; [204]] = Ok [64; 64; 170; 187; 204].
+Proof. vm_compute. reflexivity. Qed.
+Example C18_rx_reject_inhabited : dg_rx [64] = RxConnError 51 51 /\ dg_rx [255;255;255;255;255;255;255;255;1] = RxConnError 51 51.
+Proof. split; vm_compute; reflexivity. Qed.
+Example C18_rx_deliver_inhabited : dg_rx [2; 120; 121] = RxDatagram 8 [120; 121].
 Proof. vm_compute. reflexivity. Qed.
 
 Print Assumptions C18_encode_bytes.
@@ -67,3 +114,9 @@ Print Assumptions C18_advance_exact.
 Print Assumptions C18_roundtrip.
 Print Assumptions C18_decode_is_rfc.
 Print Assumptions C18_buf_impl_shape.
+Print Assumptions C18_new_asserts_only_divisibility.
+Print Assumptions C18_call_sites.
+Print Assumptions C18_tx_bytes.
+Print Assumptions C18_tx_panics_on_non_request_stream.
+Print Assumptions C18_rx_is_rfc.
+Print Assumptions C18_tx_rx_roundtrip.
